@@ -127,16 +127,19 @@ def main(argv=None):
     # extra, property-specific stages (bounded stand-ins, probes)
     extra_cov = {}
     stage_fail = []
+    stage_faults = []
     for stage in plan.get('stages', []):
         fn = getattr(importlib.import_module('contracts.' + stage[0]), stage[1])
         r = fn(prop=prop, tier=tier, seed=seed, reg=reg)
         extra_cov[stage[1]] = r.get('coverage', {})
         stage_fail += r.get('failures', [])
-    if not obs:
+        if r.get('fault'):
+            stage_faults.append(r['fault'])
+    if not obs and not plan.get('stand_in_only'):
         print(f"CHECKER-FAULT property={prop}: zero obligations generated")
         write_evidence(prop, tier, seed, plan, reg, eng, [], {}, undecided, functions, lemmas, t0, 0, [], extra_cov, fault=True)
         return 3
-    res = solve_all(obs, jobs=a.jobs, timeout_s=timeout, seed=seed)
+    res = solve_all(obs, jobs=a.jobs, timeout_s=timeout, seed=seed) if obs else {}
     failed = [o for o in obs if res[o.id].status == 'failed']
     unknown = [o for o in obs if res[o.id].status in ('unknown', 'error') and o.expect == 'valid']
     guard_unknown = [o for o in obs if res[o.id].status in ('unknown', 'error') and o.expect != 'valid']
@@ -233,9 +236,11 @@ def main(argv=None):
         tail = '' if confirmed else ' no-failing-input-found'
         print(f"VIOLATION property={prop} replay={path}{tail}")
         rc = 1
-    if faults:
+    if faults or stage_faults:
         for ob in faults:
             print(f"CHECKER-FAULT property={prop}: vacuity guard failed: {ob.name}")
+        for sf in stage_faults:
+            print(f"CHECKER-FAULT property={prop}: {sf}")
         rc = max(rc, 3) if rc != 1 else 1
     if (unknown or undecided) and rc == 0:
         rc = 2
@@ -309,6 +314,11 @@ def write_evidence(prop, tier, seed, plan, reg, eng, obs, res, undecided, functi
         'explanation': plan.get('explanation', ''),
     }
     cov.update(extra_cov)
+    rtc = extra_cov.get('run_rtc') or {}
+    if rtc.get('evaluations'):
+        cov['evaluations'] = rtc['evaluations']
+        cov['distinct_nontrivial'] = rtc.get('distinct_nontrivial') or 0
+        cov['rule'] = rtc.get('rule', '')
     doc = {
         'property_id': prop, 'tier': tier, 'seed': seed, 'level': plan.get('level', 'proof'),
         'coverage': cov,
